@@ -11,3 +11,4 @@ import DnsVerif.Props.C19
 #print axioms DnsVerif.Props.C19.cache_counter_follows_path
 #print axioms DnsVerif.Props.C19.counter_sum
 #print axioms DnsVerif.Props.C19.fixed_names_injective
+#print axioms DnsVerif.Props.C19.window_ops_atomic
